@@ -1447,12 +1447,13 @@ def _pydantic_defaults(
         return {}
     from pydantic_core import PydanticUndefined
 
+    new_defaults = {}  # do not mutate `defaults`, it is shared with copies of the PipeFunc
     for name, field_ in func.model_fields.items():
         new_name = renames.get(name, name)
         if new_name in defaults:
-            defaults[new_name] = defaults[new_name]
+            new_defaults[new_name] = defaults[new_name]
         elif field_.default_factory is not None:
-            defaults[new_name] = field_.default_factory()
+            new_defaults[new_name] = field_.default_factory()
         elif field_.default is not PydanticUndefined:
-            defaults[new_name] = field_.default
-    return defaults
+            new_defaults[new_name] = field_.default
+    return new_defaults
